@@ -2,9 +2,10 @@
 import re
 from ..core import Rule
 from ..prog import *
-from ..prog import PStr, PPtr
+from ..prog import PStr, PPtr, PRef, HEAP_BASE
 from ..facts import AnalysisBroken
 from ..interp import normx, nkey, run_all
+from ..cmem import MEM0, mem_put, mem_str, mem_hook
 
 UNITS = ["http", "evutil"]
 LEVEL = "other"
@@ -20,8 +21,12 @@ EXPLANATION = (
     "65535; path absent, empty, absolute, relative, starting with '//', first segment containing ':'; query; fragment): it either refuses, or produces a string that the RFC 3986 "
     "Appendix B split takes apart into exactly the components that were set. "
     "S (siblings): every setter validates with the same predicate the parser uses for that component. "
-    "Declined: that evhttp_uri_parse_with_flags splits every input string as RFC 3986 does (the parser works in place on a copy of the input; evaluating it needs mutable strings "
-    "and would decide a sample of inputs, not the property), the UNIX_SOCKET and NONCONFORMANT forms.")
+    "A (authority): parse_authority is evaluated on authority strings laid out in mutable byte memory (it cuts the string in place), each followed by a path or by the terminator, with and "
+    "without STRIP_BRACKETS, against an RFC 3986 3.2 reference: same accept/refuse, same userinfo / host / port, host denotation (stored text + had-brackets bit) equal to the host as "
+    "written, public flags untouched, every copy inside the authority and inside its allocation. H (host setter): evhttp_uri_set_host over host forms x public flags x prior host state; "
+    "evhttp_uri_set_flags keeps the internal bit; who may write uri->flags. "
+    "Declined: that evhttp_uri_parse_with_flags splits every input string as RFC 3986 does (decided here for the authority on a family of forms, not for all strings; scheme / path / "
+    "query / fragment splitting is not evaluated), the UNIX_SOCKET and NONCONFORMANT forms.")
 ASSUMPTIONS = ["EVUTIL_IS*_ agree with ASCII (C41)", "evutil_inet_pton accepts exactly valid IPv6 texts (C40)"]
 
 UNRESERVED = set(b"ABCDEFGHIJKLMNOPQRSTUVWXYZabcdefghijklmnopqrstuvwxyz0123456789-._~")
@@ -203,7 +208,7 @@ def rule_join(P):
     nb = 0
     import itertools
     schemes = [None, b"http"]
-    hosts = [(None, 0), (b"example.com", 0), (b"::1", BR), (b"[::1]", 0), (b"", 0)]
+    hosts = [(None, 0), (b"example.com", 0), (b"::1", BR), (b"[::1]", 0), (b"v1.x", BR), (b"", 0)]
     users = [None, b"me:pw"]
     ports = [-1, 0, 80, 65535]
     paths = [None, b"", b"/p/q", b"p", b"//x/y", b"a:b/c", b"/"]
@@ -292,6 +297,209 @@ def rule_join(P):
     return r
 
 
+# ---------------------------------------------------------------------------------------------------------------------------------------------------
+# the host component: how the parser and the setter store it (brackets stripped or not), and who may touch the internal "had brackets" bit
+
+def uri_consts(P):
+    out = {}
+    for g in P.fns_in("http.c"):
+        for x in [el.e for el in g.elems()] + [b.term["cond"] for b in g.branch_blocks()]:
+            for q in walk(x):
+                if is_e(q, "int") and len(q) > 2 and isinstance(q[2], str) and q[2] in ("_EVHTTP_URI_HOST_HAS_BRACKETS", "EVHTTP_URI_HOST_STRIP_BRACKETS", "EVHTTP_URI_UNIX_SOCKET", "EVHTTP_URI_NONCONFORMANT"):
+                    out[q[2]] = q[1]
+    return out
+
+
+def ref_authority(t):
+    """RFC 3986 3.2 with libevent's port range -> (userinfo or None, host as written, port or -1) or None"""
+    user = None
+    if b"@" in t:
+        user, t = t.split(b"@", 1)
+        if not re.match(rb"^(?:[A-Za-z0-9\-._~!$&'()*+,;=:]|%[0-9A-Fa-f]{2})*$", user):
+            return None
+    port = -1
+    m = re.match(rb"^(.*):(\d*)$", t, re.S)
+    if m:
+        t = m.group(1)
+        if m.group(2):
+            port = int(m.group(2))
+            if port > 65535:
+                return None
+    if t.startswith(b"[") and t.endswith(b"]") and len(t) >= 2:
+        inner = t[1:-1]
+        if re.match(rb"^v[0-9A-Fa-f]+\.[A-Za-z0-9\-._~!$&'()*+,;=:]+$", inner):
+            return user, t, port
+        if re.match(rb"^[0-9A-Fa-f:.]+$", inner) and b":" in inner:
+            return user, t, port            # the domain below only holds well-formed IPv6 texts (their syntax is C40's)
+        return None
+    if not re.match(rb"^(?:[A-Za-z0-9\-._~!$&'()*+,;=]|%[0-9A-Fa-f]{2})*$", t):
+        return None
+    return user, t, port
+
+
+AUTHORITIES = [b"", b"h", b"example.com", b"u@h", b"u:p@h", b"@h", b"h:80", b"h:", b"h:0", b"h:65535", b"h:65536", b"u@h:8", b"[::1]", b"[::1]:80", b"u@[::1]:8", b"[::1]:", b"[v1.x]", b"[v1.x]:9",
+               b"u@[v1.x]", b"[vF.a:b]", b"[2001:db8::7]:443", b"[::1", b"::1]", b"[]", b"[v1.]", b"[v.x]", b"h h", b"a@b@c", b"%41b", b"%4", b"1.2.3.4", b"1.2.3.4:5", b"[::1]x", b"x[::1]", b":80", b"u@",
+               b"u@:80", b"u s@h", b"[v1.x]:", b"u@[vA.b]:65535"]
+
+
+def rule_authority(P):
+    r = Rule("C28-authority", "K6", "parse_authority stores exactly the RFC 3986 userinfo / host / port of the authority (brackets stripped and remembered iff asked), reading only the authority and writing only what it allocated", floor=150)
+    f = P.fn("parse_authority")
+    K = uri_consts(P)
+    if "_EVHTTP_URI_HOST_HAS_BRACKETS" not in K or "EVHTTP_URI_HOST_STRIP_BRACKETS" not in K:
+        r.brk("URI flag constants not found")
+        return r
+    BR, STRIP = K["_EVHTTP_URI_HOST_HAS_BRACKETS"], K["EVHTTP_URI_HOST_STRIP_BRACKETS"]
+    U = lambda fl: ("@", "u", "evhttp_uri.%s" % fl)
+    nb = 0
+    for auth in AUTHORITIES:
+        for tail in (b"/p@q:1", b""):
+            for flags in (0, STRIP):
+                env = {"#typed": 1, "#bytemem": 1, "event_debug_logging_mask_": 0, f.params[0][0]: PPtr("u"), ("@", "u", "#zero"): 1, U("port"): -1, f.params[1][0]: MEM0, f.params[2][0]: MEM0 + len(auth),
+                       f.params[3][0]: PRef(None, "#flags"), "#flags": flags, "#srcend": MEM0 + len(auth)}
+                mem_put(env, MEM0, auth + tail)
+                outs = [o for o in run_all(f, (f.entry, 0), env, lambda el: False, P, mem_hook(P), max_steps=6000) if not (o.kind == "exit" and o.why == "noreturn")]
+                want = ref_authority(auth)
+                for o in outs:
+                    if o.kind != "ret":
+                        r.brk("parse_authority(%r): %s %s %s" % (auth, o.kind, o.why, o.env.get("#err", "")))
+                        return r
+                    try:
+                        rv = tevalx(normx(o.at.e[1]), o.env, P, f)
+                    except EvalError as ex:
+                        r.brk("parse_authority(%r): return value: %s" % (auth, ex))
+                        return r
+                    e_ = o.env
+                    got = None
+                    if rv == 0:
+                        ha, ua = e_.get(U("host"), 0), e_.get(U("userinfo"), 0)
+                        host = mem_str(e_, ha) if ha else None
+                        user = mem_str(e_, ua) if ua else None
+                        got = (user, host, e_.get(U("port"), -1), e_.get("#flags"))
+                    r.inst((auth, tail, flags), {"authority": auth.decode("latin-1"), "followed_by": tail.decode(), "flags": flags, "returns": rv,
+                                                "stored": None if got is None else {"userinfo": None if got[0] is None else got[0].decode("latin-1"), "host": None if got[1] is None else got[1].decode("latin-1"), "port": got[2], "flags": got[3]}})
+                    bad = None
+                    if e_.get("#oob"):
+                        bad = ("K6:parse_authority:out-of-bounds", e_["#oob"])
+                    elif (rv == 0) != (want is not None):
+                        bad = ("K6:parse_authority:accepts", "returns %d; RFC 3986: %s" % (rv, "an authority" if want else "not an authority"))
+                    elif rv == 0:
+                        user, host, port, fl = got
+                        wu, wh, wp = want
+                        lit = wh.startswith(b"[")
+                        if host is None:
+                            bad = ("K6:parse_authority:host", "no host stored (or not terminated inside its allocation)")
+                        else:
+                            den = (b"[" + host + b"]") if (fl & BR) else host
+                            if den != wh:
+                                bad = ("K6:parse_authority:host", "host stored as %r with the brackets bit %s, which denotes %r; the authority's host is %r" % (host, "set" if fl & BR else "clear", den, wh))
+                            elif lit and (flags & STRIP) and not (fl & BR):
+                                bad = ("K6:parse_authority:strip", "STRIP_BRACKETS asked for, IP-literal %r stored with its brackets" % host)
+                            elif (fl & ~BR) != flags:
+                                bad = ("K6:parse_authority:flags", "public flags changed from %#x to %#x" % (flags, fl & ~BR))
+                            elif user != wu:
+                                bad = ("K6:parse_authority:userinfo", "userinfo %r, RFC 3986: %r" % (user, wu))
+                            elif port != wp:
+                                bad = ("K6:parse_authority:port", "port %r, RFC 3986: %r" % (port, wp))
+                    if bad and nb < 8:
+                        nb += 1
+                        r.bad(bad[0], "%s:%d" % (f.file, f.line), f.name, "authority %r (followed by %r), flags %#x: %s" % (auth, tail, flags, bad[1]))
+    seen, uniq = set(), []
+    for f_ in r.findings:
+        if f_.key not in seen:
+            seen.add(f_.key)
+            uniq.append(f_)
+    r.findings = uniq
+    return r
+
+
+def rule_sethost(P):
+    r = Rule("C28-sethost", "K6", "evhttp_uri_set_host: an accepted host is stored so that (host, brackets bit) denotes it, public flags untouched; a refused host changes nothing; evhttp_uri_set_flags keeps the brackets bit", floor=60)
+    f = P.fn("evhttp_uri_set_host")
+    K = uri_consts(P)
+    if "_EVHTTP_URI_HOST_HAS_BRACKETS" not in K or "EVHTTP_URI_HOST_STRIP_BRACKETS" not in K:
+        r.brk("URI flag constants not found")
+        return r
+    BR, STRIP = K["_EVHTTP_URI_HOST_HAS_BRACKETS"], K["EVHTTP_URI_HOST_STRIP_BRACKETS"]
+    U = lambda fl: ("@", "u", "evhttp_uri.%s" % fl)
+    OLD = HEAP_BASE + 5000
+    hosts = [None, b"example.com", b"", b"[::1]", b"[v1.x]", b"[2001:db8::7]", b"[::1", b"a b", b"[v1.]", b"1.2.3.4"]
+    OTHER = K.get("EVHTTP_URI_NONCONFORMANT", 1)
+    for host in hosts:
+        for pub in (0, STRIP, STRIP | OTHER, OTHER):
+            for prior in ((None, 0), (b"old.example", 0), (b"::2", BR)):
+                if prior[1] and not (pub & STRIP):
+                    continue
+                env = {"#typed": 1, "#bytemem": 1, "event_debug_logging_mask_": 0, f.params[0][0]: PPtr("u"), ("@", "u", "#zero"): 1, U("flags"): pub | prior[1], U("host"): OLD if prior[0] is not None else 0,
+                       f.params[1][0]: MEM0 if host is not None else 0}
+                if host is not None:
+                    mem_put(env, MEM0, host)
+                if prior[0] is not None:
+                    mem_put(env, OLD, prior[0])
+                outs = [o for o in run_all(f, (f.entry, 0), env, lambda el: False, P, mem_hook(P), max_steps=6000) if not (o.kind == "exit" and o.why == "noreturn")]
+                ok = host is None or (ref_authority(host) is not None and b"@" not in host and ref_authority(host)[2] == -1 and ref_authority(host)[1] == host)
+                for o in outs:
+                    if o.kind != "ret":
+                        r.brk("evhttp_uri_set_host(%r): %s %s %s" % (host, o.kind, o.why, o.env.get("#err", "")))
+                        return r
+                    rv = tevalx(normx(o.at.e[1]), o.env, P, f)
+                    e_ = o.env
+                    ha = e_.get(U("host"), 0)
+                    st = mem_str(e_, ha) if ha else None
+                    fl = e_.get(U("flags"))
+                    r.inst((host, pub, prior), {"host": None if host is None else host.decode(), "public_flags": pub, "before": [None if prior[0] is None else prior[0].decode(), prior[1]], "returns": rv,
+                                                "after": [None if st is None else st.decode("latin-1"), fl]})
+                    bad = None
+                    if e_.get("#oob"):
+                        bad = ("out-of-bounds", e_["#oob"])
+                    elif (rv == 0) != ok:
+                        bad = ("accepts", "returns %d for %s host" % (rv, "a valid" if ok else "an invalid"))
+                    elif rv != 0:
+                        if (st, fl) != (prior[0], pub | prior[1]):
+                            bad = ("refused-but-changed", "refused, yet host/flags went from %r/%#x to %r/%#x" % (prior[0], pub | prior[1], st, fl))
+                    else:
+                        den = None if st is None else ((b"[" + st + b"]") if (fl & BR) else st)
+                        if den != host:
+                            bad = ("denotes", "stored %r with the brackets bit %s, which evhttp_uri_join writes as %r; the host set was %r" % (st, "set" if fl & BR else "clear", den, host))
+                        elif (fl & ~BR) != pub:
+                            bad = ("public-flags", "public flags changed from %#x to %#x" % (pub, fl & ~BR))
+                        elif host is not None and host.startswith(b"[") and (pub & STRIP) and not (fl & BR):
+                            bad = ("strip", "STRIP_BRACKETS is set, the IP-literal is stored with its brackets")
+                    if bad:
+                        r.bad("K6:evhttp_uri_set_host:%s" % bad[0], "%s:%d" % (f.file, f.line), f.name, "host %r, public flags %#x, before %r/%#x: %s" % (host, pub, prior[0], prior[1], bad[1]))
+    # evhttp_uri_set_flags and every other writer of uri->flags
+    g = P.fn("evhttp_uri_set_flags")
+    for old in (0, BR, BR | STRIP, STRIP):
+        for newf in (0, STRIP, OTHER, STRIP | OTHER):
+            env = {"#typed": 1, g.params[0][0]: PPtr("u"), ("@", "u", "#zero"): 1, U("flags"): old, g.params[1][0]: newf}
+            for o in run_all(g, (g.entry, 0), env, lambda el: False, P, lambda el, e_: None, max_steps=200):
+                if o.kind == "exit" and o.why == "noreturn":
+                    continue
+                if o.kind not in ("ret", "exit"):
+                    r.brk("evhttp_uri_set_flags: %s %s" % (o.kind, o.why))
+                    return r
+                fl = o.env.get(U("flags"))
+                r.inst(("set_flags", old, newf), {"flags_before": old, "set": newf, "flags_after": fl})
+                if fl is None or (fl & BR) != (old & BR) or (fl & ~BR) != newf:
+                    r.bad("K2:evhttp_uri_set_flags:internal-bit", "%s:%d" % (g.file, g.line), g.name,
+                          "flags %#x, set %#x: become %s; the internal had-brackets bit belongs to the host (a host stored without its brackets would be joined without them) and the public bits are the caller's" % (old, newf, "%#x" % fl if fl is not None else "unknown"))
+    WRITERS = {"evhttp_uri_set_flags": "evaluated above", "evhttp_uri_set_host": "evaluated above", "evhttp_uri_parse_with_flags": "fresh object", "evhttp_uri_parse_authority": "fresh object"}
+    for h in P.fns_in("http.c"):
+        for el, lhs, op, rhs in h.stores():
+            l = strip(lhs)
+            if is_e(l, "fld") and l[2] == "evhttp_uri.flags":
+                r.inst(("writer", h.name, el.n), {"fn": h.name, "site": el.where(), "store": show(el.e)[:60], "known_writer": h.name in WRITERS})
+                if h.name not in WRITERS:
+                    r.bad("K2:%s:writes-uri-flags" % h.name, el.where(), h.name, "%s stores uri->flags outside the functions that own the host's brackets bit" % show(el.e)[:60])
+    seen, uniq = set(), []
+    for f_ in r.findings:
+        if f_.key not in seen:
+            seen.add(f_.key)
+            uniq.append(f_)
+    r.findings = uniq
+    return r
+
+
 def rule_siblings(P):
     r = Rule("C28-siblings", "K7", "each setter validates its component with the predicate the parser uses for it", floor=5)
     table = {"evhttp_uri_set_scheme": "scheme_ok", "evhttp_uri_set_userinfo": "userinfo_ok", "evhttp_uri_set_host": ("regname_ok", "bracket_addr_ok"), "evhttp_uri_set_path": "end_of_path",
@@ -314,7 +522,7 @@ def rule_siblings(P):
 def run(ctx, config):
     P = ctx.prog(UNITS, config)
     rules = []
-    for mk in (rule_validators, rule_ports, rule_join, rule_siblings):
+    for mk in (rule_validators, rule_ports, rule_join, rule_authority, rule_sethost, rule_siblings):
         try:
             rules.append(mk(P))
         except AnalysisBroken as ex:
